@@ -570,11 +570,29 @@ def check_simulation(c, spec, folder, lines, pending):
     c.sample({"stream": "mo-sim", "model": spec["text"], "classes": spec["classes"], "ops": mops[:6]}, limit=6)
 
 
+def corpus_model():
+    """former failing input of F2 / F13 (both repaired): y = -x with nominal(x) = 10 and a chain"""
+    return {
+        "name": "Corpus0",
+        "variables": [
+            {"name": "x0", "attrs": {"start": 1.0, "fixed": True, "nominal": 10.0, "min": -50.0, "max": 50.0}},
+            {"name": "u0", "prefix": "input", "attrs": {"fixed": False, "min": -2.0, "max": 3.0}},
+            {"name": "a0", "attrs": {}},
+            {"name": "a1", "prefix": "output", "attrs": {}},
+        ],
+        "equations": ["der(x0) = -0.5*x0 + 1.0*u0", "a0 = -x0", "a1 = a0"],
+        "classes": {"x0": [("x0", 1), ("a0", -1), ("a1", -1)], "u0": [("u0", 1)]},
+        "kinds": {"x0": "state", "u0": "control"},
+        "starts": {"x0": 1.0, "u0": 0.5},
+        "der0": {"x0": 0.0},
+    }
+
+
 def run_models(c, n):
     lines, pending = [], []
     with Scratch() as folder:
-        for i in range(n):
-            spec = gen_alias_model(c.rng, i)
+        for i in range(-1, n):
+            spec = gen_alias_model(c.rng, i) if i >= 0 else corpus_model()
             spec["text"] = write_mo(folder, spec["name"], spec["variables"], spec["equations"])
             if any(len(m) > 1 for m in spec["classes"].values()):
                 c.hit("mo/with-aliases")
